@@ -61,23 +61,29 @@ def ob_rtree_node_spans(ctx, res):
 
 
 def ob_rtree_header_bounds(ctx, res):
-    fn = ctx.ast.fn(W, "write_rtreeindex")
-    parts = emissions(fn.body, recv_is_param0(fn))
-    segs = split_structure(parts)
-    alts = [s[1] for s in segs if s[0] == "alt"]
-    if len(alts) != 1 or len(alts[0].parts) not in (2, 3):
-        res.fail("cirHeader/bounds-shape", fn, "expected one alternative (leaf root / inner root [/ empty index]) writing the 4 header bounds")
+    from .wlayout import cir_header_parts
+    fn = ctx.ast.fn(W, "write_rtreeindex", inline=True, keep=("rtree_block_size",))
+    hp = cir_header_parts(fn)
+    if hp is None or len(hp[2]) not in (2, 3):
+        res.undecided("cirHeader/bounds-shape", fn, "the alternative (leaf root / inner root [/ empty index]) producing the 4 header bounds was not recognised")
         return
-    for br, arm in zip(alts[0].parts, alts[0].node["arms"]):
-        ems = flat_emits(br.parts)
-        g = arm.get("guard")
+    class _Br:
+        pass
+    for label, g, vals, site, _ems in hp[2]:
+        br = _Br()
+        br.node, br.label = site, label
+
+        class _E:
+            def __init__(self, arg, node):
+                self.arg, self.node = arg, node
+        ems = [_E(v, v if isinstance(v, Node) else site) for v in vals]
         if g is not None:
             # the only accepted guarded arm: an empty leaf root with all-zero bounds
             from ..astq import strip_cast
             if up(strip(g)).endswith(".is_empty()") and len(ems) == 4 and all(e.arg is not None and up(strip_cast(e.arg)) == "0" for e in ems):
                 res.ok(br.node, "empty index (no sections): zero bounds")
             else:
-                res.fail("cirHeader/guarded-arm", br.node, "guarded bounds arm `%s` not recognised" % up(arm["pat"]))
+                res.fail("cirHeader/guarded-arm", br.node, "guarded bounds arm `%s` not recognised" % label)
             continue
         if len(ems) != 4:
             res.fail("cirHeader/bounds-count", br.node, "expected 4 bounds, found %d" % len(ems))
